@@ -44,11 +44,14 @@ class HarnessBug(HarnessSignal):
     test cannot turn it into a Disconnected event: the check then ends with a harness error (exit 2)."""
 
 
+ORIG_MAKE_MASKING_KEY = None
 CASE_PRELUDE = None     # see run_scenario
 CASE_COMPANION = None   # see Companion
+CASE_NOISE = None       # calls with unsendable arguments that the application makes (and catches) during the case
 CASE_COPTS = None       # connect() options of the case being run that its scenarios do not set themselves
 ACTIVE_COMPANION = None  # the interleaved companion of the execution in progress
 ON_BLOCKED = None        # set by the runner: shortens the real-time watchdog for one execution
+NOISE_PROBLEMS = []   # unsendable calls that were accepted or wrote something (reported by the runner)
 BUG_LOG = []       # every HarnessBug raised in this process (checked by the runner after each case)
 
 _BUG_TYPES = (TypeError, AttributeError, KeyError, IndexError, NameError, AssertionError, ZeroDivisionError)
@@ -209,6 +212,8 @@ def install():
     lomond.session.time = clock
     lomond.events.time = clock
     lomond.websocket.os = _OsShim(os)
+    global ORIG_MAKE_MASKING_KEY
+    ORIG_MAKE_MASKING_KEY = lomond.frame.make_masking_key     # the library's own (scheduled runs put it back)
     lomond.frame.make_masking_key = _make_masking_key
     lomond.persist.random = _random
 
@@ -1093,6 +1098,41 @@ def _match(rule_when, ev_index, name, counts, msg_ordinal, now, fired):
     return False
 
 
+BAD_CALLS = ("bad_close_reason", "bad_close_code", "bad_ping", "bad_pong", "bad_text", "bad_binary", "bad_json")
+
+
+def do_bad_call(ws, kind):
+    """A call whose arguments cannot be sent (C03: raises TypeError/ValueError and writes nothing); the application
+    catches the error and carries on.  Returns 'rejected', 'refused' (WebSocketError: not connected / closing),
+    'accepted' or the name of another exception."""
+    try:
+        if kind == "bad_close_reason":
+            ws.close(1000, "r" * 124)
+        elif kind == "bad_close_code":
+            ws.close(70000, "too big a code")
+        elif kind == "bad_ping":
+            ws.send_ping(b"p" * 126)
+        elif kind == "bad_pong":
+            ws.send_pong(b"q" * 200)
+        elif kind == "bad_text":
+            ws.send_text(b"bytes are not text")
+        elif kind == "bad_binary":
+            ws.send_binary(u"text is not bytes")
+        elif kind == "bad_json":
+            ws.send_json({"unencodable": {1, 2, 3}})
+        else:
+            raise HarnessHang("unknown bad call %r" % (kind,))
+    except HarnessSignal:
+        raise
+    except (TypeError, ValueError):
+        return "rejected"
+    except Exception as error:
+        if "WebSocketError" in [c.__name__ for c in type(error).__mro__]:
+            return "refused"
+        return type(error).__name__
+    return "accepted"
+
+
 def do_action(ws, action, sim):
     """Perform one application action; return (result, exception-or-None)."""
     kind = action[0]
@@ -1419,6 +1459,9 @@ def _drive(ws, scenario, sim, tr, on_event, release=None, companion=None):
 
 
 def _drive_inner(ws, scenario, sim, tr, on_event, release=None, companion=None):
+    noise = scenario["noise_calls"] if "noise_calls" in scenario else (CASE_NOISE or [])
+    noise_fired = [False] * len(noise)
+    tr.noise = []
     copts = dict(CASE_COPTS or {})
     copts.update(scenario.get("connect_opts", {}))
     rules = scenario.get("reactions", [])
@@ -1471,6 +1514,16 @@ def _drive_inner(ws, scenario, sim, tr, on_event, release=None, companion=None):
                 # the other connection's thread runs while this one's application has the event
                 companion.step()
                 CURRENT_set(sim)
+            for ni, nz in enumerate(noise):
+                # the application tries a call with unsendable arguments at this event and catches the error
+                if not noise_fired[ni] and _match(nz["when"], idx, name, counts, this_msg, sim.now, False):
+                    noise_fired[ni] = True
+                    before = len(sim.log)
+                    outcome = do_bad_call(ws, nz["do"])
+                    wrote = sum(1 for e in sim.log[before:] if e[0] in ("send", "send_fail") and e[2])
+                    tr.noise.append((idx, nz["do"], outcome, wrote))
+                    if outcome == "accepted" or wrote:
+                        NOISE_PROBLEMS.append("%s at event %d (%s) was %s and wrote %d times" % (nz["do"], idx, name, outcome, wrote))
             if on_event is not None:
                 on_event(ws, ev, tr)
             for ri, rule in enumerate(rules):
